@@ -1,8 +1,8 @@
 (* Equity_spec.v — what the equity export must carry forward, stated directly on the
    postings of the source journal. Definitions only. *)
 From Coq Require Import Sorted.
-From TkModel Require Import Base Dec Acct Txn Balance Accept Equity.
-From TkSpec Require Import Balance_spec.
+From TkModel Require Import Base Dec Acct Txn Balance Accept Equity Journal.
+From TkSpec Require Import Balance_spec Journal_spec.
 Local Open Scope Z_scope.
 
 (* well-formed source: every posting has scale <= 28 and a proper account name *)
@@ -141,11 +141,8 @@ Definition RowsCarried (eqa : acct) (src exp : list brow) : Prop :=
    Settings::try_from rejects any other name when the equity export is a target (F20); the
    theorems of C10 are stated at AST level and hold for every eqa, the text-level tie assumes
    eq_account_ok. *)
-Definition is_ws (c : N) : bool :=      (* char::is_whitespace = Unicode White_Space *)
-  ((9 <=? c) && (c <=? 13) || (c =? 32) || (c =? 133) || (c =? 160) || (c =? 5760)
-   || (8192 <=? c) && (c <=? 8202) || (c =? 8232) || (c =? 8233) || (c =? 8239) || (c =? 8287)
-   || (c =? 12288))%N.
-Definition ascii_digit (c : N) : bool := ((48 <=? c) && (c <=? 57))%N.
+(* is_ws = char::is_whitespace (Unicode White_Space): Journal.is_ws *)
+Definition ascii_digit (c : N) : bool := is_digit c.
 Definition id_start_ok (c : N) : bool :=
   negb (ascii_digit c || (c =? 58)%N || (c =? 45)%N || (c =? 95)%N || (c =? 183)%N || is_ws c).
 Definition sub_id_start_ok (c : N) : bool := ascii_digit c || id_start_ok c.
@@ -157,3 +154,13 @@ Definition eq_account_ok (a : acct) : bool :=
   | [] => false
   | c0 :: rest => comp_ok_b id_start_ok c0 && forallb (comp_ok_b sub_id_start_ok) rest
   end.
+
+(* The complete rule (F20, third repair 2cae891): Settings::try_from accepts the name iff
+   AccountTreeNode::from accepts it AND the journal parser's own p_multi_part_id consumes it
+   entirely, i.e. it is an account name of the journal grammar (Journal_spec.name_ok: first
+   character an identifier start, every component a non-empty run of identifier characters)
+   that the semantic layer accepts (Journal.acct_sem_ok).  eq_account_ok above is kept as the
+   is_valid_id / is_valid_sub_id layer: on grammar names it adds only "no white space" (U+1680
+   is an identifier character of the grammar and White_Space).
+   = EquityText_spec.eq_acct_ok plus that white-space clause. *)
+Definition eq_account_ok2 (a : acct) : bool := name_ok a && acct_sem_ok a && eq_account_ok a.
